@@ -10,6 +10,8 @@ CONSTANTS
   PhraseSets <- PS_Big
   InitShared = {{"D1"}, {"D1", "D3"}, {"D1", "D2", "D3"}, {"D2", "D3"}, {"D1", "D2", "D4"}}
   FriendUsers = {"u1", "u2"}
+  InitSess = {TRUE}
+  MaxSess = 0
   MaxCfg = 7
   MaxReq = 4
   MaxEnv = 3
@@ -19,6 +21,7 @@ CONSTANTS
   DirReplyLocks = TRUE
   ScanDirCycles = TRUE
   AlwaysAccumulate = FALSE
+  TickReportsAlways = TRUE
   FlagsTakenAtStart = TRUE
   RevertWithinTick = FALSE
 INVARIANT TypeOK
